@@ -3,6 +3,7 @@ package main
 import (
 	"fmt"
 	"os"
+	"runtime/debug"
 )
 
 type cmdFn func(args []string) int
@@ -14,6 +15,9 @@ func main() {
 		fmt.Fprintln(os.Stderr, "usage: vh <cmd> [args]")
 		os.Exit(2)
 	}
+	// a runaway recursion inside the library must kill this process quickly (the runtime's "stack overflow" is then
+	// classified by vlib.RepoCrash), not after the default 1 GB of stack and the heap that goes with it
+	debug.SetMaxStack(16 << 20)
 	fn, ok := cmds[os.Args[1]]
 	if !ok {
 		fmt.Fprintln(os.Stderr, "unknown cmd", os.Args[1])
